@@ -108,6 +108,12 @@ def gen_cases(ctx, rng):
             c["intr_every"] = rng.choice([1, 1, 2, 3])
             c["cap"] = rng.choice([1, 2, 5, 64])
             stats["interrupt_racing_with_data"] = stats.get("interrupt_racing_with_data", 0) + 1
+        if "intr_every" not in c and rng.chance(1, 4):
+            # the writer fed by io.Copy from a source (as link.go feeds it from a socket), which may hand over its last bytes together
+            # with io.EOF: every byte the source produced comes out of the reader
+            c["via_copy"] = True
+            c["data_eof"] = rng.chance(2, 3)
+            stats["via_io_copy"] = stats.get("via_io_copy", 0) + 1
         cases.append(c)
         stats["concurrent"] += 1
     return cases, stats
@@ -120,10 +126,12 @@ def oracle(case, res):
     if res.get("panic"):
         return "panic or goroutine blocked for ever: " + res["panic"][:120]
     if case.get("conc"):
+        if res.get("all", []) != flat:
+            return "concurrent run%s: %d bytes went into the writer, %d came out of the reader%s" % (
+                " (writer fed by io.Copy%s)" % (", last bytes returned with io.EOF" if case.get("data_eof") else "") if case.get("via_copy") else "",
+                len(flat), len(res.get("all", [])), ("; " + res["bad_write"]) if res.get("bad_write") else " (or they differ)")
         if res.get("bad_write"):
             return "concurrent run: " + res["bad_write"] + " although every byte was taken (a caller honouring the count re-sends or gives up)"
-        if res.get("all", []) != flat:
-            return "concurrent run: bytes read differ from bytes written"
         if not res.get("eof"):
             return "concurrent run: no EOF after close"
         return None
